@@ -423,7 +423,8 @@ pub fn with_timeout<R: Send + 'static>(f: impl FnOnce() -> R + Send + 'static) -
 
 pub fn env_u64(name: &str, default: u64) -> u64 {
     match std::env::var(name) {
-        Ok(v) if !v.trim().is_empty() => v.trim().parse().unwrap_or_else(|_| {
+        // any integer is accepted (negative or beyond u64 wraps: it only seeds a PRNG)
+        Ok(v) if !v.trim().is_empty() => v.trim().parse::<i128>().map(|x| x as u64).unwrap_or_else(|_| {
             eprintln!("harness error: {name}={v:?} is not an integer");
             std::process::exit(2)
         }),
